@@ -21,16 +21,143 @@ func init() {
 	})
 }
 
-// panicClass is the frozen classification table of R1: function -> ordinal -> (class, reason).
-var panicClass = map[string][]struct{ class, reason string }{
-	"state.(*State).SetFlag":   {{"assumed", "flag index out of range: excluded by the property (flags in range); bytecode-supplied indices are range-checked (C15 R7)"}},
-	"state.(*State).ResetFlag": {{"assumed", "flag index out of range: excluded by the property (flags in range); bytecode-supplied indices are range-checked (C15 R7)"}},
-	"state.(*State).GetFlag":   {{"assumed", "flag index out of range: excluded by the property (flags in range); bytecode-supplied indices are range-checked (C15 R7)"}},
-	"state.(*State).Down": {{"guarded", "stack depth beyond MaxLevel: every reachable call site checks the depth against state.MaxLevel first"},
-		{"assumed", "descending into the node that is already current: excluded by the property (no node moves to itself)"}},
-	"resource.(*DbResource).mustSafe": {{"config", "store not locked for use with a resource: configuration misuse, independent of client input"}},
-	"vm.(*Vm).runInCmp":               {{"infeasible", "panic(err) behind a test of the parse error that an earlier return already excluded"}},
-	"persist.(*Persister).Save":       {{"config", "saving an invalidated persister: documented misuse (continuing to use an engine whose initialisation failed)"}},
+// Classification of explicit panics (R1) by the condition that controls them, not by the name of
+// the function they sit in (so that moving a guard into a helper changes nothing):
+//
+//	flag-range  (assumed)    package state, controlled by a comparison with the BitSize field:
+//	                         excluded by the property (flags in range); bytecode-supplied indices
+//	                         are range-checked (C15 R7)
+//	depth       (guarded)    package state, controlled by a comparison with state.MaxLevel: every
+//	                         reachable call site outside state must test the depth first
+//	self-move   (assumed)    package state, controlled by equality of a parameter with an element of
+//	                         ExecPath: excluded by the property (no node moves to itself)
+//	unsafe-store (config)    controlled by the result of db.Db.Safe: configuration misuse
+//	invalidated (config)     package persist, controlled by Persister.Invalid(): documented misuse
+//	infeasible               panic(err) behind a test of an error that an earlier return excluded
+type panicKind struct{ kind, class, reason string }
+
+// controllingConds lists the conditions of the branches that must be taken to reach block b.
+func controllingConds(b *ssa.BasicBlock) []ssa.Value {
+	var out []ssa.Value
+	for _, x := range b.Parent().Blocks {
+		ifi, ok := x.Instrs[len(x.Instrs)-1].(*ssa.If)
+		if !ok || !(x == b || x.Dominates(b)) || x == b {
+			continue
+		}
+		n := 0
+		for _, s := range x.Succs {
+			if len(s.Preds) == 1 && (s == b || s.Dominates(b)) {
+				n++
+			}
+		}
+		if n == 1 {
+			out = append(out, ifi.Cond)
+		}
+	}
+	return out
+}
+
+// condLeaves walks the operands of a condition down to loads, parameters, globals and calls.
+func condLeaves(v ssa.Value, seen map[ssa.Value]bool, out *[]ssa.Value) {
+	if v == nil || seen[v] || len(seen) > 200 {
+		return
+	}
+	seen[v] = true
+	switch t := v.(type) {
+	case *ssa.BinOp:
+		condLeaves(t.X, seen, out)
+		condLeaves(t.Y, seen, out)
+	case *ssa.UnOp:
+		if t.Op == token.MUL {
+			*out = append(*out, t)
+			if ia, ok := t.X.(*ssa.IndexAddr); ok {
+				condLeaves(ia.X, seen, out)
+			}
+			return
+		}
+		condLeaves(t.X, seen, out)
+	case *ssa.Convert:
+		condLeaves(t.X, seen, out)
+	case *ssa.ChangeType:
+		condLeaves(t.X, seen, out)
+	case *ssa.Phi:
+		for _, e := range t.Edges {
+			condLeaves(e, seen, out)
+		}
+	case *ssa.Call:
+		*out = append(*out, t)
+		if core.IsCallTo(t, "builtin.len") {
+			condLeaves(t.Call.Args[0], seen, out)
+		}
+	case *ssa.Index:
+		*out = append(*out, t)
+		condLeaves(t.X, seen, out)
+	default:
+		*out = append(*out, v)
+	}
+}
+
+func classifyPanic(p *ssa.Panic) (panicKind, bool) {
+	fn := p.Parent()
+	pkg := core.PkgOf(fn)
+	var leaves []ssa.Value
+	for _, c := range controllingConds(p.Block()) {
+		condLeaves(c, map[ssa.Value]bool{}, &leaves)
+	}
+	hasField := func(name string) bool {
+		for _, l := range leaves {
+			if _, f, ok := core.LoadedField(l); ok && f == name {
+				return true
+			}
+		}
+		return false
+	}
+	hasGlobal := func(name string) bool {
+		for _, l := range leaves {
+			if g := core.GlobalOf(l); g != nil && g.Name() == name {
+				return true
+			}
+			if u, ok := l.(*ssa.UnOp); ok {
+				if g, ok := u.X.(*ssa.Global); ok && g.Name() == name {
+					return true
+				}
+			}
+		}
+		return false
+	}
+	hasCall := func(names ...string) bool {
+		for _, l := range leaves {
+			if c, ok := l.(*ssa.Call); ok && core.IsCallTo(c, names...) {
+				return true
+			}
+		}
+		return false
+	}
+	strEqParam := false
+	for _, c := range controllingConds(p.Block()) {
+		if bo, ok := c.(*ssa.BinOp); ok && (bo.Op == token.EQL || bo.Op == token.NEQ) {
+			_, px := core.Strip(bo.X).(*ssa.Parameter)
+			_, py := core.Strip(bo.Y).(*ssa.Parameter)
+			if bt, isB := bo.X.Type().Underlying().(*types.Basic); isB && bt.Info()&types.IsString != 0 && (px || py) {
+				strEqParam = true
+			}
+		}
+	}
+	switch {
+	case pkg == "state" && strEqParam && hasField("ExecPath"):
+		return panicKind{"self-move", "assumed", "descending into the node that is already current: excluded by the property (no node moves to itself)"}, true
+	case pkg == "state" && (hasField("BitSize") || hasCall("state.(*State).FlagBitSize")):
+		return panicKind{"flag-range", "assumed", "flag index out of range: excluded by the property (flags in range); bytecode-supplied indices are range-checked (C15 R7)"}, true
+	case pkg == "state" && hasGlobal("MaxLevel"):
+		return panicKind{"depth", "guarded", "stack depth beyond MaxLevel: every reachable call site checks the depth against state.MaxLevel first"}, true
+	case hasCall("db.Db.Safe"):
+		return panicKind{"unsafe-store", "config", "store not locked for use with a resource: configuration misuse, independent of client input"}, true
+	case pkg == "persist" && hasCall("persist.(*Persister).Invalid"):
+		return panicKind{"invalidated", "config", "saving an invalidated persister: documented misuse (continuing to use an engine whose initialisation failed)"}, true
+	case panicInfeasible(p):
+		return panicKind{"infeasible", "infeasible", "panic(err) behind a test of the parse error that an earlier return already excluded"}, true
+	}
+	return panicKind{}, false
 }
 
 func runC08(w *core.World, r *core.Report) {
@@ -53,6 +180,7 @@ func runC08(w *core.World, r *core.Report) {
 
 	// ---- R1 -----------------------------------------------------------------------------------
 	np := 0
+	kinds := map[string]int{}
 	for _, fn := range w.LibFuncs {
 		if !reach[fn] {
 			continue
@@ -66,28 +194,37 @@ func runC08(w *core.World, r *core.Report) {
 				}
 				np++
 				r.Touch(core.QName(fn))
-				key := fmt.Sprintf("%s: panic #%d", core.QName(fn), ord+1)
-				tab := panicClass[core.QName(fn)]
-				if ord >= len(tab) {
-					r.Bad("R1", key, p.Pos(), "an explicit panic is reachable from the request path and is not in the classification table: client input may crash the process", "call path: "+callPath(w, pred, fn))
-					ord++
+				ord++
+				key := fmt.Sprintf("%s: panic #%d", core.QName(fn), ord)
+				cl, known := classifyPanic(p)
+				if !known {
+					r.Bad("R1", key, p.Pos(), "an explicit panic is reachable from the request path and the condition that controls it is none of the classified kinds (flag-range, depth, self-move, unsafe-store, invalidated, infeasible): client input may crash the process", "call path: "+callPath(w, pred, fn))
 					continue
 				}
-				cl := tab[ord]
-				ord++
+				kinds[cl.kind]++
 				switch cl.class {
 				case "config", "assumed":
-					r.OK("R1", key, p.Pos(), cl.class+": "+cl.reason)
+					r.OK("R1", key, p.Pos(), cl.class+" ("+cl.kind+"): "+cl.reason)
 				case "infeasible":
-					r.Check(panicInfeasible(p), "R1", key, p.Pos(), "infeasible: "+cl.reason, "the panic is no longer excluded by an earlier return on the same condition: it is reachable with client-controlled data")
+					r.OK("R1", key, p.Pos(), "infeasible: "+cl.reason)
 				case "guarded":
+					// entry points: the exported functions of the package that reach the panic
+					entries := map[*ssa.Function]bool{}
+					for _, f := range w.FuncsIn(core.PkgOf(fn)) {
+						if !token.IsExported(f.Name()) {
+							continue
+						}
+						if sub, _ := reachable(w, []*ssa.Function{f}); f == fn || sub[fn] {
+							entries[f] = true
+						}
+					}
 					bad := ""
 					nsites := 0
 					for _, caller := range w.LibFuncs {
-						if !reach[caller] || core.PkgOf(caller) == "state" {
+						if !reach[caller] || core.PkgOf(caller) == core.PkgOf(fn) {
 							continue
 						}
-						for _, c := range core.CallsTo(caller, core.QName(fn)) {
+						for _, c := range callsToSet(caller, entries) {
 							nsites++
 							if !guardedByMaxLevel(c) {
 								bad = fmt.Sprintf("call at %s in %s is not behind a depth test against state.MaxLevel", w.Pos(c.Pos()), core.QName(caller))
@@ -100,7 +237,8 @@ func runC08(w *core.World, r *core.Report) {
 			}
 		}
 	}
-	r.Floor("R1", "reachable explicit panics", np, 5)
+	r.Floor("R1", "functions reachable from the request entry points", len(reach), 100)
+	r.Floor("R1", "reachable explicit panics", np, 1)
 
 	// ---- R2 -----------------------------------------------------------------------------------
 	checkPairing(w, r, "R2")
@@ -113,11 +251,15 @@ func runC08(w *core.World, r *core.Report) {
 	// ---- R3 -----------------------------------------------------------------------------------
 	anyContainer := func(t types.Type) bool { return true }
 	nb := 0
-	for _, nm := range []string{"(*Sizer).GetAt", "(*Menu).applyPage", "(*Menu).shiftMenu", "(*Menu).Render"} {
-		fn := anchor(w, r, "render", nm)
-		if fn == nil {
+	for _, fn := range w.FuncsIn("render") {
+		if fn.Signature.Recv() == nil || len(fn.Blocks) == 0 {
 			continue
 		}
+		rt := core.TypeName(fn.Signature.Recv().Type())
+		if rt != "*render.Sizer" && rt != "*render.Menu" && rt != "render.Menu" {
+			continue
+		}
+		r.Touch(core.QName(fn))
 		bd := core.NewBounds(fn, intBits(w))
 		for _, s := range bd.Sites(anyContainer) {
 			// varargs arrays built by the compiler for logging calls are trivially in bounds
@@ -127,40 +269,47 @@ func runC08(w *core.World, r *core.Report) {
 		}
 	}
 	r.Floor("R3", "bounds sites in the page cursor / menu functions", nb, 5)
-	if ap := w.Func("render", "(*Menu).applyPage"); ap != nil {
+	{
 		ok := false
-		for _, b := range ap.Blocks {
-			for _, in := range b.Instrs {
-				bo, isBo := in.(*ssa.BinOp)
-				if !isBo {
-					continue
-				}
-				idxX, idxY := paramIndex(bo.X) == 1, paramIndex(bo.Y) == 1
-				_, fx, okx := core.LoadedField(bo.X)
-				_, fy, oky := core.LoadedField(bo.Y)
-				var beyond []core.Edge
-				switch {
-				case idxX && oky && fy == "pageCount" && (bo.Op == token.GEQ || bo.Op == token.LSS):
-					beyond = core.EdgesWhere(bo, bo.Op == token.GEQ)
-				case idxY && okx && fx == "pageCount" && (bo.Op == token.LEQ || bo.Op == token.GTR):
-					beyond = core.EdgesWhere(bo, bo.Op == token.LEQ)
-				}
-				for _, e := range beyond {
-					// every return behind this edge yields a *BrowseError
-					in, _ := core.Reach(core.Point{B: e.To(), I: 0}, func(x ssa.Instruction) bool {
-						ret, isRet := x.(*ssa.Return)
-						if !isRet {
-							return false
+		var apPos token.Pos
+		for _, ap := range w.FuncsIn("render") {
+			if ap.Signature.Recv() == nil || !strings.Contains(core.TypeName(ap.Signature.Recv().Type()), "render.Menu") {
+				continue
+			}
+			apPos = ap.Pos()
+			for _, b := range ap.Blocks {
+				for _, in := range b.Instrs {
+					bo, isBo := in.(*ssa.BinOp)
+					if !isBo {
+						continue
+					}
+					idxX, idxY := paramIndex(bo.X) == 1, paramIndex(bo.Y) == 1
+					_, fx, okx := core.LoadedField(bo.X)
+					_, fy, oky := core.LoadedField(bo.Y)
+					var beyond []core.Edge
+					switch {
+					case idxX && oky && fy == "pageCount" && (bo.Op == token.GEQ || bo.Op == token.LSS):
+						beyond = core.EdgesWhere(bo, bo.Op == token.GEQ)
+					case idxY && okx && fx == "pageCount" && (bo.Op == token.LEQ || bo.Op == token.GTR):
+						beyond = core.EdgesWhere(bo, bo.Op == token.LEQ)
+					}
+					for _, e := range beyond {
+						// every return behind this edge yields a *BrowseError
+						in, _ := core.Reach(core.Point{B: e.To(), I: 0}, func(x ssa.Instruction) bool {
+							ret, isRet := x.(*ssa.Return)
+							if !isRet {
+								return false
+							}
+							return !strings.Contains(ret.Results[0].Type().String()+valueTypeString(ret.Results[0]), "BrowseError")
+						}, nil)
+						if in == nil {
+							ok = true
 						}
-						return !strings.Contains(ret.Results[0].Type().String()+valueTypeString(ret.Results[0]), "BrowseError")
-					}, nil)
-					if in == nil {
-						ok = true
 					}
 				}
 			}
 		}
-		r.Check(ok, "R3", "render.(*Menu).applyPage: index beyond page count", ap.Pos(), "returns *BrowseError on idx >= pageCount", "a page index at or beyond the page count is not reported as *BrowseError (wrong or empty content, or a later crash)")
+		r.Check(ok, "R3", "render.Menu: index beyond page count", apPos, "returns *BrowseError on idx >= pageCount", "a page index at or beyond the page count is not reported as *BrowseError (wrong or empty content, or a later crash)")
 	}
 	if vr := anchor(w, r, "vm", "(*Vm).Render"); vr != nil {
 		ok := false
